@@ -241,6 +241,7 @@ func runC07(c *core.Ctx, o Options) {
 	// G2 premise: an accepting session never rests in WaitingLogonAnswer (where the next Logon is accepted unchecked as the
 	// answer to its own), and the Logon is parsed into a builder of its own (fields absent from this Logon are absent, not
 	// left over from another session's)
+	s.checkLogonParams("G2") // the approval test itself: a Logon that must be refused must not start the timers
 	s.checkRestingSide("G2")
 	if lf := s.one(true, "Logon"); lf != nil {
 		s.checkParseFirst("G2", "Logon", lf, s.tr.Traces(lf, s.m.AllStates))
